@@ -706,3 +706,39 @@ pub fn run_teardown(iters: u64, seed: u64, out: &str, feats: Value, sample: u64)
     rt.shutdown_timeout(Duration::from_millis(200));
     (asks, hung_runs, written)
 }
+
+
+/// C11: spawn actors from many threads at once; report the ids each thread obtained.
+pub fn run_spawnids(threads: usize, per: usize, out: &str) -> usize {
+    let rt = tokio::runtime::Builder::new_multi_thread().worker_threads(4).enable_time().build().unwrap();
+    let handle = rt.handle().clone();
+    let barrier = Arc::new(std::sync::Barrier::new(threads));
+    let mut hs = Vec::new();
+    for t in 0..threads {
+        let (h, b) = (handle.clone(), barrier.clone());
+        hs.push(std::thread::spawn(move || {
+            let _g = h.enter();
+            b.wait();
+            let mut ids = Vec::with_capacity(per);
+            for i in 0..per {
+                let cfg = TCfg { run: 0, name: format!("x{t}_{i}"), start: "err", stop: "ok", panic_on: 0, run_script: vec![] };
+                let (r, _jh) = rsactor::spawn::<T>(cfg);
+                ids.push(r.identity().id);
+            }
+            (t, ids)
+        }));
+    }
+    use std::io::Write;
+    let mut o = std::io::BufWriter::new(std::fs::File::create(out).unwrap());
+    let mut n = 0;
+    for h in hs {
+        let (t, ids) = h.join().unwrap();
+        n += ids.len();
+        serde_json::to_writer(&mut o, &json!({"e": "SpawnBatch", "thread": t, "ids": ids})).unwrap();
+        o.write_all(b"\n").unwrap();
+    }
+    o.flush().unwrap();
+    rt.shutdown_timeout(Duration::from_millis(500));
+    let _ = take_run(0);
+    n
+}
